@@ -37,6 +37,16 @@ def near(v, rng):
     return v ^ (1 << 128)
 
 
+def big_id(rng):
+    """an identity placed relative to the fixed points of the reductions identities go through: a multiple of r (or 2^255, 2^256) plus or
+    minus an offset of a random magnitude"""
+    base = rng.choice([R, 2 * R, 1 << 255, 1 << 256, 0])
+    j = rng.choice([1, 8, 32, 63, 64, 65, 100, 127, 128, 129, 192, 250])
+    off = rng.getrandbits(j) | (1 << (j - 1))
+    v = base + off if (rng.random() < 0.5 or base == 0) else base - off
+    return v % (1 << 256)
+
+
 def nudge(v, rng, small):
     """a value different from v mod r: v + (small non-zero), or a near miss of v"""
     if rng.random() < 0.5:
